@@ -7,7 +7,9 @@ import (
 	"github.com/gobwas/ws"
 	"github.com/gobwas/ws/wsutil"
 	"google.golang.org/grpc"
+	"google.golang.org/grpc/codes"
 	"google.golang.org/grpc/metadata"
+	"google.golang.org/grpc/status"
 	"google.golang.org/protobuf/encoding/protojson"
 	"google.golang.org/protobuf/proto"
 )
@@ -21,6 +23,7 @@ type streamWS struct {
 	header     metadata.MD
 	trailer    metadata.MD
 	params     params
+	maxRecv    int // maximum size of a received message
 	recvN      int
 	sendN      int
 	sentHeader bool
@@ -90,6 +93,9 @@ func (s *streamWS) RecvMsg(m interface{}) error {
 		b, _, err := wsutil.ReadClientData(s.conn)
 		if err != nil {
 			return err
+		}
+		if len(b) > s.maxRecv {
+			return status.Errorf(codes.ResourceExhausted, "max receive message size exceeded")
 		}
 
 		// TODO: contentType check?
